@@ -616,3 +616,88 @@ theorem sxLegal_inv {e : BSx} (h : SxLegal e = true) :
     exact ⟨cs, rfl, fun x hx => ⟨childB_sound x (hc x hx), childB_noBr (hc x hx)⟩,
       fun x hx => ⟨(childB_sound x (hc x hx)).toG, childB_noBr (hc x hx)⟩⟩
   · cases h
+
+/-! ## `build` never accepts a `branch` statement -/
+
+theorem isBranch_shape {e : BSx} (h : isBranch e = true) : ∃ args, e = .list (.str "branch" :: args) := by
+  unfold isBranch at h
+  split at h
+  · rename_i cmd rest
+    simp only [decide_eq_true_eq] at h
+    subst h
+    exact ⟨rest, rfl⟩
+  · cases h
+
+theorem loop_no_branch {cfg : Config} {mode : KeyMode} {inject : Option (List (String × GateDef))} {F : Nat} :
+    ∀ (cs : List BSx) (acc accF : Acc), circuitLoop cfg mode inject F acc cs = .ok accF → ∀ x ∈ cs, isBranch x = false
+  | [], _, _, _ => fun x hx => by cases hx
+  | e :: cs, acc, accF, h => by
+    simp only [circuitLoop] at h
+    obtain ⟨acc1, hstep, hrest⟩ := bind_ok h
+    intro x hx
+    rcases List.mem_cons.1 hx with rfl | hx
+    · cases hb : isBranch x with
+      | false => rfl
+      | true =>
+        obtain ⟨args, rfl⟩ := isBranch_shape hb
+        unfold circuitStep at hstep
+        obtain ⟨pr, hbuild, _⟩ := bind_ok hstep
+        exact absurd hbuild (branch_fails _ _ _ _ _ _ _)
+    · exact loop_no_branch cs acc1 accF hrest x hx
+
+theorem buildNoMemo_no_branch {cfg : Config} {cs : List BSx} {c : Circuit}
+    (h : buildNoMemo cfg (.list (.str "circuit" :: cs)) = .ok c) : ∀ x ∈ cs, isBranch x = false := by
+  unfold buildNoMemo buildWith at h
+  obtain ⟨inject, _, h1⟩ := bind_ok h
+  simp only [buildCore] at h1
+  obtain ⟨accF, hloop, _⟩ := bind_ok h1
+  exact loop_no_branch cs _ accF hloop
+
+/-! ## header statements first -/
+
+/-- the header statements of the program come before its macros and statements (as in every Jaqal text) -/
+def headersFirst : BSx → Bool
+  | .list (_ :: cs) => (cs.dropWhile headerB).all topB
+  | _ => false
+
+theorem mem_takeWhile_p {α} {p : α → Bool} : ∀ {l : List α} {x : α}, x ∈ l.takeWhile p → p x = true
+  | [], _, h => by simp at h
+  | y :: ys, x, h => by
+    simp only [List.takeWhile_cons] at h
+    split at h
+    · rename_i hy
+      rcases List.mem_cons.1 h with rfl | h
+      · exact hy
+      · exact mem_takeWhile_p h
+    · simp at h
+
+theorem mem_of_dropWhile {α} {p : α → Bool} : ∀ {l : List α} {x : α}, x ∈ l.dropWhile p → x ∈ l
+  | [], _, h => by simp at h
+  | y :: ys, x, h => by
+    simp only [List.dropWhile_cons] at h
+    split at h
+    · exact List.mem_cons_of_mem _ (mem_of_dropWhile h)
+    · exact h
+
+theorem headersFirst_split {cs : List BSx} {x : BSx} (h : headersFirst (.list (x :: cs)) = true) :
+    ∃ hs bs, cs = hs ++ bs ∧ (∀ e ∈ hs, SHeaderL e) ∧ (∀ e ∈ bs, STopL e) := by
+  simp only [headersFirst, List.all_eq_true] at h
+  refine ⟨cs.takeWhile headerB, cs.dropWhile headerB, (List.takeWhile_append_dropWhile).symm, ?_, ?_⟩
+  · intro e he
+    exact headerB_sound e (mem_takeWhile_p he)
+  · intro e he
+    exact topB_sound e (h e he)
+
+theorem headersFirst_of {hs bs : List BSx} {x : BSx} (hh : ∀ e ∈ hs, SHeaderL e)
+    (hb : ∀ e ∈ bs, STopL e ∧ isBranch e = false) : headersFirst (.list (x :: (hs ++ bs))) = true := by
+  simp only [headersFirst, List.all_eq_true]
+  induction hs with
+  | nil =>
+    intro e he
+    simp only [List.nil_append] at he
+    exact topB_complete (hb e (mem_of_dropWhile he)).1 (hb e (mem_of_dropWhile he)).2
+  | cons y ys ih =>
+    intro e he
+    have hy : headerB y = true := headerB_complete (hh y (by simp))
+    simp only [List.cons_append, List.dropWhile_cons, hy, if_true] at he
+    exact ih (fun z hz => hh z (by simp [hz])) e he
